@@ -28,6 +28,21 @@ def C14(tier, rng):
             cs.append(Case('dec.dns %s' % hx(v), 'repeat'))
             cs.append(Case('dec.dns %s' % hx(rng.choice(hostile)), 'hostile'))
             cs.append(Case('dec.dns %s' % hx(v), 'repeat'))
+    many = msg_with([{'ty': 1, 'name': (b'h%03d' % i, b'example', b'org'), 'ttl': i, 'cls': 1, 'f': [bytes([10, 0, i // 256, i % 256])]} for i in range(320)])
+    big_ok = 'enc.dns %s' % pmsg(many)
+    after = ['enc.dns %s' % pmsg(msg_with([{'ty': 2, 'name': (b'h001', b'example', b'org'), 'ttl': 0, 'cls': 1, 'f': [(b'ns', b'example', b'org')]}])),
+             'enc.question %s' % pquestion({'name': (b'www', b'example', b'org'), 'qtype': 1, 'qclass': 1}),
+             'enc.name %s' % pname((b'h300', b'example', b'org'))]
+    for _ in range(sz(tier, 3, 20)):
+        for g in after:
+            cs.append(Case(g, 'repeat')); cs.append(Case(big_ok, 'big-first')); cs.append(Case(g, 'repeat'))
+    zz = [names_msg_a(p) for p in look_alike_name_pairs() if p[0][0] in (b'Zone', b'zone', b'ZZ', b'zz')]
+    for m in zz:
+        b, _ = render(m)
+        for _ in range(sz(tier, 6, 40)):
+            cs.append(Case('mt.dns 16 %d %s' % (sz(tier, 8, 32), hx(b)), 'mt-zcase'))
+        for _ in range(sz(tier, 40, 400)):
+            cs.append(Case('enc.dns %s' % pmsg(m), 'repeat'))
     bad_enc = ['enc.rr %s' % prr({'ty': 13, 'name': (b'a', b'example'), 'ttl': 0, 'cls': 1, 'f': [b'c' * 300, b'x']}),
                'enc.dns %s' % pmsg(msg_with([{'ty': 10, 'name': (b'big', b'example'), 'ttl': 0, 'cls': 1, 'f': [bytes(40000)]}] * 2)),
                'enc.rr %s' % prr({'ty': 16, 'name': (b't', b'example'), 'ttl': 0, 'cls': 1, 'f': [[b'ok', b's' * 256]]})]
@@ -80,6 +95,8 @@ def C15(tier, rng):
             w = opt_rr([opt_option(12, body)])
             if len(w) <= 65535 + 11:
                 cs.append(Case('dec.rr %s' % hx(w), 'pad%d' % plen))
+    for body in (b'\xf0\xf0', b'\1\2\3', b'AAAA', b'\xff' * 128, b'\0\x80\0\x80', b'\1\0\1'):
+        cs.append(Case('dec.rr %s' % hx(opt_rr([opt_option(12, body)])), 'pad-cancel'))
     # option-length deltas and all sequences of up to 3 (4 in thorough) options over a small set
     small = [opt_option(8, b'\0\1\x18\0\x0a\0\0'), opt_option(8, b'\0\2\x38\0' + b'\x20\1\x0d\xb8\0\0\0'), opt_option(10, b'12345678'),
              opt_option(10, b'12345678' + b's' * 8), opt_option(12, b''), opt_option(12, b'\0\0\0'), opt_option(8, b'\0\1\0\0'), opt_option(11, b'x')]
@@ -126,10 +143,10 @@ def C16(tier, rng):
         exp = dict(rr, params=[('mandatory', list(range(1, n + 1)))] + rr['params'][:1] + rr['params'][1:3])
         cs.append(Case('enc.rr %s' % prr(rr), 'enc-lists', exp=('RR', lower_text(prr(exp)))))
     # wire side: all orders / duplications of up to 3 (4 thorough) parameters
-    keys = [0, 1, 2, 3, 4, 5, 6, 7, 65535]
+    keys = [0, 1, 2, 3, 4, 5, 6, 7, 65534, 65535]
     for n in range(0, sz(tier, 4, 5)):
         for combo in itertools.product(keys, repeat=n):
-            if n == 4 and rng.random() < 0.5: continue
+            if (n == 4 and rng.random() < 0.5) or (n == 3 and rng.random() < 0.3): continue
             ps = [pw(k, PARAM_SAMPLES[k][rng.randrange(len(PARAM_SAMPLES[k]))]) for k in combo]
             for prio in ((1,) if n > 1 else (0, 1, 65535)):
                 cs.append(Case('dec.rr %s' % hx(svcb_rr(rng.choice([64, 65]), prio, b'\0', ps)), 'wire-order%d' % n))
@@ -228,6 +245,56 @@ def C18(tier, rng):
                     else: rrs = [rr_of(ty, earlier, (b'p',))]
                     m = msg_with(rrs + [rr_of(ty, n, owner)], qs=qs)
                     cs.append(enc_case(m, 'c18-%d-%s' % (ty, pos)))
+    # the rest of the message must not influence the choice: OPT records (version, DO, extended rcode, options), header
+    # bits, opcodes, classes, sections, neighbours of other types
+    def opt(ver=0, do=0, ext=0, payload=1232, opts=()):
+        return {'ty': 41, 'payload': payload, 'ext': ext, 'ver': ver, 'do': do, 'opts': list(opts)}
+    opts_ctx = [opt(), opt(ver=1), opt(ver=255), opt(do=1), opt(ext=1), opt(payload=512), opt(payload=65535),
+                opt(ver=1, do=1, opts=[('pad', 4)]), opt(opts=[('cookie', b'\1' * 8, None)])]
+    hdr_ctx = [{}, {'qr': 0}, {'aa': 1}, {'tc': 1}, {'rd': 0}, {'ra': 0}, {'ad': 1}, {'cd': 1}, {'opcode': 4}, {'opcode': 5}, {'opcode': 2},
+               {'rcode': 3}, {'rcode': 9}, {'id': 0}, {'id': 65535}]
+    for ty in NEWTYPES:
+        n = (b'x',) + base
+        q = {'name': base, 'qtype': ty if ty != 41 else 1, 'qclass': 1}
+        for o in opts_ctx:
+            for where in ('before', 'after'):
+                m = msg_with([rr_of(ty, n, base)], qs=[q])
+                m['ar'] = [o]
+                if where == 'before': m['ar'] = [o] + m['an']; m['an'] = []
+                cs.append(enc_case(m, 'c18-ctx-opt'))
+        for h in hdr_ctx:
+            m = msg_with([rr_of(ty, n, base)], qs=[q])
+            for k, v in h.items():
+                if k == 'id': m['id'] = v
+                else: m['flags'][k] = v
+            cs.append(enc_case(m, 'c18-ctx-header'))
+        for sec in ('an', 'ns', 'ar'):
+            for cls in (1, 3, 4, 254, 255):
+                for ttl in (0, 1, 0x7fffffff, 0xffffffff):
+                    r = rr_of(ty, n, base); r['cls'] = cls; r['ttl'] = ttl
+                    m = msg_with([], qs=[q]); m[sec] = [r]
+                    cs.append(enc_case(m, 'c18-ctx-rr'))
+        for qt in (1, 255, ty, 252):
+            for qc in (1, 255, 254):
+                m = msg_with([rr_of(ty, n, base)], qs=[{'name': base, 'qtype': qt, 'qclass': qc}])
+                cs.append(enc_case(m, 'c18-ctx-question'))
+        # many records of the same kind, and the record at every distance from the start
+        for k in (2, 3, 10, 40):
+            m = msg_with([rr_of(ty, (b'n%d' % i,) + base, base) for i in range(k)], qs=[q])
+            cs.append(enc_case(m, 'c18-ctx-many'))
+    # the record at the very end of a message of about 64 KiB: written in full the message does not fit, compressed it would
+    for ty in NEWTYPES:
+        n = (b'sip',) + base
+        r = rr_of(ty, n, (b'o',) + base)
+        q = {'name': base, 'qtype': 1, 'qclass': 1}
+        probe = msg_with([r], qs=[q])
+        b0, _ = render(probe, Layout(random.Random(0), compress=0.0))
+        for total in list(range(65520, 65560, sz(tier, 3, 1))) + [65535, 65536]:
+            fill = total - len(b0) - 2 * 13
+            if fill < 0: continue
+            f1 = min(fill, 60000); f2 = fill - f1
+            fillers = [{'ty': 10, 'name': (b'f',), 'ttl': 0, 'cls': 1, 'f': [b'\0' * f1]}, {'ty': 10, 'name': (b'g',), 'ttl': 0, 'cls': 1, 'f': [b'\0' * f2]}]
+            cs.append(enc_case(msg_with(fillers + [r], qs=[q]), 'c18-end-of-message'))
     for _ in range(sz(tier, 10000, 60000)):
-        cs.append(enc_case(rand_msg(rng, types=NEWTYPES + [2, 5, 6, 15, 12, 14, 1]), 'random'))
+        cs.append(enc_case(rand_msg(rng, types=NEWTYPES + [2, 5, 6, 15, 12, 14, 1, 41]), 'random'))
     return cs
